@@ -300,6 +300,59 @@ def run(tier: str, rng: random.Random, proof_ok: bool) -> dict:
                         report("C19:equal-but-different-behaviour",
                                f"{a!r} == {c!r} yet on {x1!r} ({mode}) they return {r1!r} and {r2!r}",
                                {"t": to_json(t), "t2": to_json(t2), "lazy": to_json(lazy), "x": to_json(xt), "mode": mode})
+    # (3) equal validators behave equally whatever each has been used for before: one of two equal objects
+    #     is first used on a short history, then both are asked about the same input
+    overlap = [("UnionV", [("Scalar", ("KDatetime",), Some(("CoDatetime",)), [], [], []), ("Scalar", ("KStr",), None, [], [], [])]),
+               ("UnionV", [("Scalar", ("KInt",), None, [], [], []), ("Scalar", ("KDecimal",), Some(("CoDecimal",)), [], [], [])]),
+               ("UnionV", [("Scalar", ("KDate",), Some(("CoDate",)), [], [], []), ("Scalar", ("KStr",), None, [("Strip",)], [], [])]),
+               ("ListV", ("UnionV", [("Scalar", ("KUuid",), Some(("CoUuid",)), [], [], []), ("Scalar", ("KStr",), None, [], [], [])]), [], [], None),
+               ("OptionalV", ("NoneV", None), ("UnionV", [("Scalar", ("KDecimal",), Some(("CoDecimal",)), [], [], []), ("Scalar", ("KStr",), None, [], [], [])]))]
+    alpha = [G.S("abc"), G.S("2020-01-02T03:04:05"), G.S("2020-01-02"), G.S("1.5"), G.I(1), G.S("12345678-1234-5678-1234-567812345678"),
+             G.NONE, ("VList", [G.S("abc")]), ("VList", [G.S("12345678-1234-5678-1234-567812345678")]), G.D1]
+    n_hist = 0
+    trees = overlap * (2 if tier == "quick" else 20) + [G.gen_validator(rng, rng.choice([1, 2]), allow_async=False) for _ in range(60 if tier == "quick" else 1500)]
+    for t in trees:
+        try:
+            ctx = Ctx(G.STD_CLASSES, [], random.Random(7))
+            ctx.rng = random.Random(7)
+            a = ctx.validator(t)
+            ctx.rng = random.Random(7)
+            b = ctx.validator(t)
+        except HarnessError:
+            continue
+        if not (a == b) or G.contains(t, "CacheV"):
+            continue
+        hist = [rng.choice(alpha) for _ in range(rng.choice([1, 2, 3]))]
+        mode = rng.choice(["sync", "sync", "async"])
+        try:
+            for h in hist:
+                xh = to_py(h, ctx.ct)
+                try:
+                    a(xh) if mode == "sync" else drive(a.validate_async(xh))
+                except Exception:  # noqa
+                    pass
+            for xt in alpha:
+                n_hist += 1
+                x1, x2 = to_py(xt, ctx.ct), to_py(xt, ctx.ct)
+                try:
+                    r1 = a(x1) if mode == "sync" else drive(a.validate_async(x1))
+                except Exception as e:  # noqa
+                    r1 = e
+                ctx.rng = random.Random(7)
+                b = ctx.validator(t)              # an equal validator that has never been used
+                try:
+                    r2 = b(x2) if mode == "sync" else drive(b.validate_async(x2))
+                except Exception as e:  # noqa
+                    r2 = e
+                if not (a == b):
+                    continue
+                if not results_equal(r1, r2):
+                    report("C19:equal-but-history-dependent",
+                           f"two equal validators {a!r}: the one used before on {[to_py(h, ctx.ct) for h in hist]!r} returns {r1!r} on {x1!r}, the fresh one {r2!r}",
+                           {"t": to_json(t), "history": [to_json(h) for h in hist], "x": to_json(xt), "mode": mode})
+                    break
+        except HarnessError:
+            continue
     # TypeValidator over different types, Equals over equal-valued matches of different types
     tv = lambda t_: ("Scalar", ("KType", t_), None, [], [], [])
     explicit = [(tv(("TInt",)), tv(("TStr",))), (tv(("TClass", N(G.C_PLAIN))), tv(("TClass", N(G.C_UNHASH)))),
@@ -334,7 +387,7 @@ def run(tier: str, rng: random.Random, proof_ok: bool) -> dict:
     cov = {"evaluations": n_pairs + n_rebuild + n_probe, "distinct_nontrivial": n_pairs,
            "rule": "pairs (t, independent rebuild of t) and (t, t with one constructor argument changed at one node); Python == compared with veqb src_mask; separating-input probes for every pair Python reports equal",
            "pairs": n_pairs, "rebuilds": n_rebuild, "python_equal": eq_true, "python_unequal": eq_false,
-           "separating_probes": n_probe, "model_verdicts_compared": len(lines), "mismatches": mism,
+           "separating_probes": n_probe, "history_probes": n_hist, "model_verdicts_compared": len(lines), "mismatches": mism,
            "samples": samples or [{"note": "see rule"}], "traces_validated_against_impl": len(lines),
            "corr_wall_s": round(time.time() - t0, 1)}
     return {"violations": violations, "coverage": cov}
@@ -349,7 +402,7 @@ def model_verdicts(lines, violations) -> int:
     hdr = HEADER.replace("Corr.Check.", "Corr.Check Model.Eq.") + "From KVGen Require Import Facts_eq.\n"
     for k in range(0, len(lines), per):
         chunk = lines[k:k + per]
-        path = os.path.join(GEN, f"cases_C19_{k // per}.v")
+        path = os.path.join(GEN, f"cases_C19_p{os.getpid()}_{k // per}.v")
         body = [hdr, "Goal True.\n"] + [f"  chk_eq {i}%nat {lhs} {rhs}.\n" for i, (lhs, rhs, _) in enumerate(chunk)] + ["exact I. Qed.\n"]
         open(path, "w").write("".join(body))
         files.append((path, chunk))
@@ -389,6 +442,13 @@ def replay(path: str) -> int:
     ctx.rng = random.Random(7)
     b = ctx.validator(from_json(rc.get("t2", rc["t"])))
     print("a == b:", a == b, "| repr equal:", repr(a) == repr(b))
+    if "history" in rc:
+        for h in rc["history"]:
+            xh = to_py(from_json(h), ctx.ct)
+            try:
+                a(xh) if rc["mode"] == "sync" else drive(a.validate_async(xh))
+            except Exception:  # noqa
+                pass
     if "x" in rc:
         x = to_py(from_json(rc["x"]), ctx.ct)
         r1 = a(x) if rc["mode"] == "sync" else drive(a.validate_async(x))
